@@ -315,11 +315,15 @@ impl Oracle {
             self.violate("C02", "term_regressed", json!({"node": node, "before": prev.term, "after": term, "crash_kind": "none"}));
         }
         self.note_term(node, term, "state");
-        if role == ROLE_LEADER {
-            self.acts_as_leader(node, term, "role_leader");
-            if prev.role != ROLE_LEADER {
-                self.probe("became_leader");
-            }
+        if role == ROLE_LEADER && prev.role != ROLE_LEADER {
+            // Only the transition counts: a leader that adopts a higher term while it is
+            // stepping down is not acting as leader of that term unless it emits
+            // AppendEntries for it (recorded separately at the transport seam).
+            self.acts_as_leader(node, term, "became_leader");
+            self.probe("became_leader");
+        }
+        if role == ROLE_LEADER && prev.role == ROLE_LEADER && prev.term != term {
+            self.probe("leader_term_bump_before_stepdown");
         }
         if prev.role == ROLE_LEADER && role != ROLE_LEADER && prev.term == term {
             self.probe("same_term_stepdown");
